@@ -81,13 +81,12 @@ def check(run):
     # ---- R1 weights
     wm = None
     em = None
-    for m in hirq.matches(fz["hir"]):
-        if hirq.local_name_of(m["scrut"]) == "base_token":
-            if wm is None:
-                wm = m
-            else:
-                em = m
-    run.require(wm is not None and em is not None, "weight/emission matches on base_token not found in the fuzzer")
+    for m in hirq.matches_on_type(F.lib, fz["hir"], "lexer::BaseToken", 5):
+        if wm is None:
+            wm = m
+        else:
+            em = m
+    run.require(wm is not None and em is not None, "weight/emission matches over BaseToken not found in the fuzzer")
     weights = {}
     for a in wm["arms"]:
         w = [n["v"] for n in hirq.lits(a["body"], "int")]
@@ -133,7 +132,8 @@ def check(run):
     # bound of its mean token length follows from the weight table and the spellings (1 byte for every randomly spelled
     # token, separators not counted); large outputs exceed the capacity as soon as D is larger than the true mean.
     te = F.body("delta::lexer::tokens::Tokens::empty")
-    divs = [n for n in walk(te["hir"]) if n.get("k") == "Binary" and n.get("op") == "Div" and hirq.local_name_of(hirq.unwrap_trivial(n["lhs"])) == "source_len"]
+    te_params = [q.get("lid") for q in te.get("params", [])]
+    divs = [n for n in walk(te["hir"]) if n.get("k") == "Binary" and n.get("op") == "Div" and hirq.unwrap_trivial(n["lhs"]).get("lid") in te_params]
     dvals = [hirq.unwrap_trivial(n["rhs"]).get("v") for n in divs]
     run.require(len(dvals) >= 1 and isinstance(dvals[0], int), "Tokens::empty: `source_len / D` not found")
     Dv = dvals[0]   # the first division sizes the token arrays (the second one the payloads)
@@ -145,8 +145,22 @@ def check(run):
     # expected separator bytes per token: add_whitespace pushes one space with probability p unless the last byte is a newline,
     # and newlines are at least `lo` bytes apart (every token has at least one byte, so at most one token in `lo` follows a newline)
     p_space, lo = 0.0, None
+    # by role: the whitespace closure is the let-bound closure that draws random_bool and pushes a space without consulting the
+    # lexer's identifier class; the newline position is the local compared with buffer.len() in the loop that pushes a newline
+    newline_lids = set()
+    for lp in walk(fz["hir"]):
+        if lp.get("k") == "Loop" and 10 in lexq.char_lits(lp):
+            for x in walk(lp):
+                if x.get("k") == "Binary" and x.get("op") in ("Gt", "Ge", "Lt", "Le"):
+                    sides = [hirq.unwrap_trivial(x["lhs"]), hirq.unwrap_trivial(x["rhs"])]
+                    if any(y.get("k") == "MethodCall" and y.get("name") == "len" for y in sides):
+                        newline_lids |= set(y.get("lid") for y in sides if y.get("k") == "Path" and y.get("rk") == "Local")
     for n in walk(fz["hir"]):
-        if n.get("k") == "Let" and n["pat"].get("name") == "add_whitespace":
+        is_ws = n.get("k") == "Let" and isinstance(n.get("init"), dict) and n["init"].get("k") == "Closure" and \
+            32 in lexq.char_lits(n["init"]["body"]) and any(c.get("name") == "random_bool" for c in hirq.calls(n["init"]["body"])) and \
+            not any(hirq.callee(c) == "delta::lexer::is_identifier_continuation" for c in hirq.calls(n["init"]["body"])) and \
+            not any(c.get("name") == "random_range" and 97 in lexq.char_lits(c) for c in hirq.calls(n["init"]["body"]))
+        if is_ws and 9 in lexq.char_lits(n["init"]["body"]):
             ps = []
             for c in hirq.calls(n["init"]):
                 if c.get("name") == "random_bool" and c.get("a"):
@@ -155,7 +169,7 @@ def check(run):
                         ps.append((c["l"], float(mo.group(1))))
             if ps:
                 p_space = sorted(ps)[-1][1]    # the `else if rng.random_bool(p) { push(' ') }` branch is the last one
-        if n.get("k") == "Let" and n["pat"].get("name") == "next_newline_at" and lo is None:
+        if n.get("k") == "Let" and n["pat"].get("lid") in newline_lids and lo is None:
             for x in walk(n.get("init", {})):
                 if x.get("k") == "Struct" and str(x.get("path", "")).endswith("ops::Range"):
                     lo = hirq.unwrap_trivial(x["fields"][0]["e"]).get("v")
@@ -197,19 +211,24 @@ def check(run):
         run.ob("R2-SUFFIX", v, sd.get(sp) == v and sa.get(sp) == v, F.where(fz),
                "int type %s is appended as suffix %r: delta %s alpha %s" % (v, sp, sd.get(sp), sa.get(sp)))
     vm = None
-    for m in hirq.matches(fz["hir"]):
-        if hirq.local_name_of(m["scrut"]) == "value_type":
-            vm = m
-    run.require(vm is not None, "value_type weight match not found")
+    for m in hirq.matches_on_type(F.lib, fz["hir"], "lexer::ValueTypeKeyword", 2):
+        vm = vm or m
+    run.require(vm is not None, "the weight match over ValueTypeKeyword was not found")
     nk = [a for a in vm["arms"] if hirq.pat_key(a["pat"]).endswith("NoKeyword")]
     run.ob("R1-WEIGHTS", "ValueTypeKeyword::NoKeyword", len(nk) == 1 and [n["v"] for n in hirq.lits(nk[0]["body"], "int")] == [0],
            F.where(fz, vm), "NoKeyword has no spelling and must have weight 0")
     # ---- R3 separators
+    # the separator closure, by role: the let-bound closure whose body calls the lexer's is_identifier_continuation
+    sep_closure, sep_lid = None, None
+    for n in walk(fz["hir"]):
+        if n.get("k") == "Let" and isinstance(n.get("init"), dict) and n["init"].get("k") == "Closure" and \
+                any(hirq.callee(c) == "delta::lexer::is_identifier_continuation" for c in hirq.calls(n["init"]["body"])):
+            sep_closure, sep_lid = n["init"], n["pat"].get("lid")
     starts_wordlike = {"Identifier", "Builtin", "ValueTypeKeyword", "NakedDecimal", "BitInteger", "SuffixedInteger", "BoolLiteral"}
     for v, a in explicit.items():
         calls = list(hirq.calls(a["body"]))
         first = calls[0] if calls else None
-        first_is_space = first is not None and first.get("k") == "Call" and hirq.local_name_of(first["f"]) == "add_space_if_necessary"
+        first_is_space = first is not None and first.get("k") == "Call" and hirq.unwrap_trivial(first["f"]).get("lid") == sep_lid and sep_lid is not None
         if v in starts_wordlike:
             run.ob("R3-SEPARATOR", v, first_is_space, F.where(fz, a),
                    "the %s arm writes text starting with an identifier-continuation character and must call "
@@ -224,17 +243,14 @@ def check(run):
     for n in walk(fallback["body"]):
         if n.get("k") == "If":
             cc = [hirq.callee(c) for c in hirq.calls(n["cond"])]
-            tc = [hirq.local_name_of(c["f"]) for c in hirq.calls(n["then"]) if c.get("k") == "Call"]
-            if "delta::lexer::is_identifier_continuation" in cc and "add_space_if_necessary" in tc:
+            tc = [hirq.unwrap_trivial(c["f"]).get("lid") for c in hirq.calls(n["then"]) if c.get("k") == "Call"]
+            if "delta::lexer::is_identifier_continuation" in cc and sep_lid in tc and sep_lid is not None:
                 ok = True
     run.ob("R3-SEPARATOR", "fallback", ok, F.where(fz, fallback),
            "keywords and `_` emitted by the fallback arm need add_space_if_necessary when they start with an identifier-continuation byte")
     # add_space_if_necessary closure
-    cl = None
-    for n in walk(fz["hir"]):
-        if n.get("k") == "Let" and n["pat"].get("name") == "add_space_if_necessary":
-            cl = n["init"]
-    run.require(cl is not None, "add_space_if_necessary closure not found")
+    cl = sep_closure
+    run.require(cl is not None, "the separator closure (tests the last byte with is_identifier_continuation, pushes a space) was not found")
     cc = [hirq.callee(c) for c in hirq.calls(cl["body"])]
     ok = "delta::lexer::is_identifier_continuation" in cc and lexq.char_lits(cl["body"]) == [32] and \
         any((c or "").endswith("Iterator::last") or (c or "").endswith("last") for c in cc)
@@ -264,9 +280,12 @@ def check(run):
     # single_char_dist: explicit list subset, guard is_ascii_graphic, catch-all 0
     sc = None
     for n in walk(fz["hir"]):
-        if n.get("k") == "Let" and n["pat"].get("name") == "single_char_dist":
-            sc = n["init"]
-    run.require(sc is not None, "single_char_dist not found")
+        # by role: the distribution whose weight match names the backslash and both quotes (characters that need escaping)
+        if n.get("k") == "Let" and isinstance(n.get("init"), dict) and sc is None:
+            pats = [lexq.char_lits(a["pat"]) for m in hirq.matches(n["init"]) for a in m["arms"]]
+            if any({92, 39, 34} <= set(pl) for pl in pats):
+                sc = n["init"]
+    run.require(sc is not None, "the weight table of single characters (the one that names backslash and quotes) was not found")
     ms = [m for m in hirq.matches(sc)]
     run.require(ms, "match in single_char_dist not found")
     allowed = {32, 10, 9, 13, 92, 39, 34}
@@ -289,8 +308,11 @@ def check(run):
     run.require(df is not None, "do_fuzzing not found in the bin crate")
     factor = None
     for n in walk(df["hir"]):
-        if n.get("k") == "Binary" and n.get("op") == "Mul" and hirq.local_name_of(n["lhs"]) == "kb" and n["rhs"].get("k") == "Lit":
-            factor = n["rhs"]["v"]
+        if n.get("k") == "Binary" and n.get("op") == "Mul" and hirq.unwrap_trivial(n["lhs"]).get("rk") == "Local" and n["rhs"].get("k") == "Lit":
+            from rules import origins as _or
+            ok_ = _or.origins(df["hir"], n["lhs"], df.get("params", ()))
+            if any((k[0] == "field" and k[1] == "kb") or (k[0] == "patfield" and k[2] == "kb") for k in ok_) or hirq.local_name_of(n["lhs"]) == "kb":
+                factor = n["rhs"]["v"] if factor is None else min(factor, n["rhs"]["v"])
     pct = None
     for c in hirq.calls(df["hir"]):
         if hirq.callee(c) == FZ:
